@@ -8,7 +8,10 @@ timestamp properties of real objects; oracle = the property text evaluated on
 the implementation's output with an independent integer-arithmetic reader.
 """
 import datetime as dt
+import os
 import re
+import subprocess
+from concurrent.futures import ThreadPoolExecutor
 from fractions import Fraction
 
 import common
@@ -330,6 +333,61 @@ def model_term(case, ym, nm="NaiveKept"):
 
 
 # --------------------------------------------------------------------------
+# extraction route (thorough tier): the same model compiled to OCaml (extract/c15)
+
+EXTRACT_DIR = os.path.join(common.VERIF, "extract", "c15")
+XP = {"any": "a", "second": "s", "millisecond": "m"}
+XC = {"exact": "e", "min": "m"}
+
+
+def build_extracted():
+    """coqc the extraction file against the built development, then ocamlopt; -> path of the executable"""
+    for cmd in (["timeout", "600", "coqc", "-Q", common.COQ, "V", "Extract.v"],
+                ["timeout", "600", "ocamlfind", "ocamlopt", "-w", "-a", "c15model.mli", "c15model.ml", "driver.ml", "-o", "c15model.exe"]):
+        p = subprocess.run(cmd, cwd=EXTRACT_DIR, stdout=subprocess.PIPE, stderr=subprocess.STDOUT, text=True)
+        if p.returncode != 0:
+            raise RuntimeError("%s failed:\n%s" % (" ".join(cmd[2:4]), p.stdout[-1500:]))
+    return os.path.join(EXTRACT_DIR, "c15model.exe")
+
+
+def extracted_line(case, ym, nm):
+    inp = case["in"]
+    k = {"fmt": 0, "parse": 1}.get(case["k"], 2)
+    src = "-" if "src" not in inp else XP[inp["src"][0]] + XC[inp["src"][1]]
+    if "str" in inp:
+        body = "str " + (",".join(str(ord(ch)) for ch in inp["str"]) or "-")
+    elif "date" in inp:
+        body = "date %d %d %d" % tuple(inp["date"])
+    else:
+        body = "dt %s %s" % (" ".join(str(x) for x in inp["dt"]), "N" if inp.get("off") is None else inp["off"])
+    return "%d %s %s %s %s %s %s" % (k, "K" if nm == "NaiveKept" else "U", "U" if ym == "Unpadded" else "P",
+                                     XP[case["p"]], XC[case["c"]], src, body)
+
+
+def eval_extracted(exe, cases, ym, nm):
+    lines = [extracted_line(c, ym, nm) for c in cases]
+    n = max(1, common.NCPU)
+    size = (len(lines) + n - 1) // n
+    chunks = [lines[i:i + size] for i in range(0, len(lines), size)]
+
+    def run(chunk):
+        p = subprocess.run([exe], input="\n".join(chunk) + "\n", stdout=subprocess.PIPE, stderr=subprocess.PIPE, text=True)
+        out = p.stdout.split("\n")
+        if out and out[-1] == "":
+            out.pop()
+        if p.returncode != 0 or len(out) != len(chunk):
+            raise RuntimeError("extracted model failed: rc=%s, %d results for %d cases\n%s"
+                               % (p.returncode, len(out), len(chunk), p.stderr[-800:]))
+        return out
+
+    res = []
+    with ThreadPoolExecutor(max_workers=n) as ex:
+        for part in ex.map(run, chunks):
+            res.extend(part)
+    return res
+
+
+# --------------------------------------------------------------------------
 # the property, evaluated on the implementation's observable output
 
 CANON = re.compile(r"^(\d{4})-(\d{2})-(\d{2})T(\d{2}):(\d{2}):(\d{2})(?:\.(\d+))?Z$", re.ASCII)
@@ -501,7 +559,7 @@ def select_variant(run):
 
 def check(run):
     thorough = run.tier == "thorough"
-    scale = 22.0 if thorough else 1.0
+    scale = 80.0 if thorough else 1.0
     run.coverage["rule"] = (
         "boundary-biased datetimes (years {1,999,1000,1970,9999}+random, boundary microseconds, naive/aware, UTC offsets "
         "-14h..+14h incl. odd-second and sub-second ones, date objects) and timestamp strings (fraction lengths 0-9, "
@@ -533,15 +591,37 @@ def check(run):
     run.coverage["distribution"] = hist
     for i in (0, len(cases) // 3, len(cases) // 2, len(cases) - 400, len(cases) - 1):
         run.sample({"case": cases[i], "impl": impl[i]})
-    try:
-        model = common.coq_eval_lines("c15m", HEADER, [model_term(c, ym, nm) for c in cases], shard=450)
-        dis = [(c, i, m) for c, i, m in zip(cases, impl, model) if split_result(i)[0] != m]
-        run.coverage["correspondence_cases"] = len(cases)
-        run.coverage["correspondence_disagreements"] = len(dis)
+    def compare(model, which, subset=None):
+        idx = range(len(cases)) if subset is None else subset
+        dis = [(cases[i], impl[i], m) for i, m in zip(idx, model) if split_result(impl[i])[0] != m]
+        run.coverage["correspondence_cases_" + which] = len(model)
+        run.coverage["correspondence_disagreements"] = run.coverage.get("correspondence_disagreements", 0) + len(dis)
         if dis:
             run.coverage["correspondence_first_disagreements"] = [{"case": c, "impl": i, "model": m} for c, i, m in dis[:5]]
-            run.broken.append(Broken("correspondence", "Model/Timestamp.v (%s, %s) vs stix2.utils / TimestampProperty" % (ym, nm),
+            run.broken.append(Broken("correspondence", "Model/Timestamp.v (%s, %s, %s route) vs stix2.utils / TimestampProperty" % (ym, nm, which),
                                      {"first": [{"case": c, "impl": i, "model": m} for c, i, m in dis[:8]]}))
+
+    try:
+        if thorough:
+            # volume through the extracted OCaml model; a sample of the same cases through the kernel so that
+            # the two evaluation routes check each other
+            exe = build_extracted()
+            xmodel = eval_extracted(exe, cases, ym, nm)
+            compare(xmodel, "extracted")
+            step = max(1, len(cases) // 20000)
+            sample = list(range(0, len(cases), step))
+            kmodel = common.coq_eval_lines("c15m", HEADER, [model_term(cases[i], ym, nm) for i in sample], shard=450)
+            compare(kmodel, "kernel", sample)
+            rd = [(cases[i], k, xmodel[i]) for i, k in zip(sample, kmodel) if k != xmodel[i]]
+            run.coverage["routes"] = {"extracted": len(xmodel), "kernel_sample": len(kmodel), "route_disagreements": len(rd)}
+            if rd:
+                run.broken.append(Broken("correspondence", "kernel route vs extracted route",
+                                         {"first": [{"case": c, "kernel": k, "extracted": x} for c, k, x in rd[:5]]}))
+        else:
+            model = common.coq_eval_lines("c15m", HEADER, [model_term(c, ym, nm) for c in cases], shard=450)
+            compare(model, "kernel")
+        run.coverage["correspondence_cases"] = len(cases)
+        run.coverage.setdefault("correspondence_disagreements", 0)
     except RuntimeError as e:
         run.broken.append(Broken("correspondence", "model evaluation failed", {"error": str(e)[-1500:]}))
     phases["model"] = round(time.time() - t0, 1)
